@@ -231,8 +231,8 @@ Proof.
   intro Hk. unfold steps. cbn [nth].
   assert (Hl : (k < length (step_incs RNum brk tm))%nat) by (rewrite step_incs_length; lia).
   rewrite cumsum1_nth by exact Hl. rewrite Rsum_firstn_S' by exact Hl.
-  destruct k as [|k]; [unfold Rsum; cbn [firstn fold_right nth RNum zero]; lra|].
-  cbn [nth]. rewrite cumsum1_nth by lia. reflexivity.
+  destruct k as [|k]; [unfold Rsum; cbn [firstn fold_right nth RNum zero]; reflexivity|].
+  cbn [nth]. rewrite cumsum1_nth by (tnorm; lia). reflexivity.
 Qed.
 
 Lemma cbreaks_succ : forall brk tm c0 k, length brk = length tm -> (S k < length brk)%nat ->
@@ -278,7 +278,7 @@ Proof.
     rewrite (ssr_cons b1). destruct (Rle_dec b1 t) as [H1|H1].
     + specialize (IH tm (c0 + (b1 - b0) / m0) t Hl' ltac:(discriminate) H1).
       unfold widx in IH. rewrite ssr_cons in IH. destruct (Rle_dec b1 t); [|lra].
-      cbn [nth]. cbn zeta in IH. rewrite <- IH. ring.
+      cbn zeta in IH. transitivity (c0 + (b1 - b0) / m0 + integ (b1 :: brk) tm t); [ring|exact IH].
     + cbn [nth]. reflexivity.
 Qed.
 
@@ -313,7 +313,7 @@ Section CTM.
     pose proof (integ_index brk tm 0 t Hl Hne Ht') as E. cbn zeta in E.
     pose proof (steps_telescope brk tm Hl Hne H0 Hp _ Ib) as Et.
     assert (0 < nth (widx RNum brk t) tm 0) by (apply Hp, nth_In; lia).
-    rewrite Rplus_0_l in E. rewrite E, <- Et. field. lra.
+    rewrite Rplus_0_l in E. tnorm. rewrite E, <- Et. unfold Rdiv. ring.
   Qed.
 
   Lemma new_breaks_cbreaks :
@@ -344,7 +344,7 @@ Section CTM.
     = Some (map (integ brk tm) ts, cbreaks 0 brk tm, map (fun m => 1 / m) tm).
   Proof.
     intro Hts. unfold change_time_measure. rewrite (ctm_ok_true ts Hts).
-    rewrite new_breaks_cbreaks. f_equal. f_equal. f_equal.
+    cbv zeta. pose proof new_breaks_cbreaks as Eb. tnorm. rewrite Eb. f_equal. f_equal. f_equal.
     apply map_ext_in. intros t Ht. apply ctm_at_integ. apply Hts. exact Ht.
   Qed.
 End CTM.
